@@ -127,10 +127,57 @@ func genManager(repo, out string) {
 			name, sel.Sel.Name, len(params), strings.Join(idxs, "; "), notFound, deletes, other))
 		names = append(names, name)
 	}
+	// CreateTable: every write to the registry, whether it comes after the success check of the
+	// engine's CreateTable, and under which key
+	var stores []string
+	for _, fd := range methodsOf(f, "manager") {
+		if fd.Name.Name != "CreateTable" {
+			continue
+		}
+		seenCreate, seenCheck := false, false
+		for _, st := range fd.Body.List {
+			text := src(st)
+			if as, ok := st.(*ast.AssignStmt); ok && len(as.Rhs) == 1 && strings.Contains(src(as.Rhs[0]), ".CreateTable(setting)") {
+				seenCreate = true
+				continue
+			}
+			if ifs, ok := st.(*ast.IfStmt); ok && seenCreate && src(ifs.Cond) == "err != nil" && len(ifs.Body.List) == 1 {
+				if r, ok := ifs.Body.List[0].(*ast.ReturnStmt); ok && len(r.Results) == 2 && src(r.Results[1]) == "err" {
+					seenCheck = true
+					continue
+				}
+			}
+			if strings.Contains(text, "m.tableEngines.") {
+				es, ok := st.(*ast.ExprStmt)
+				if !ok {
+					die("%s: CreateTable: unrecognised use of the registry: %s", pos(st), text)
+				}
+				call, ok := es.X.(*ast.CallExpr)
+				if !ok || src(call.Fun) != "m.tableEngines.Store" || len(call.Args) != 2 {
+					die("%s: CreateTable: unrecognised use of the registry: %s", pos(st), text)
+				}
+				key := src(call.Args[0])
+				stores = append(stores, fmt.Sprintf("(%v, %v)", seenCreate && seenCheck, key == "table.ID" || key == "setting.TableID"))
+			}
+		}
+		if !seenCreate {
+			die("%s: CreateTable does not call the engine's CreateTable(setting)", pos(fd))
+		}
+	}
+	// Reset: replaces the registry by an empty one
+	resetClears := false
+	for _, fd := range methodsOf(f, "manager") {
+		if fd.Name.Name == "Reset" && len(fd.Body.List) == 1 && src(fd.Body.List[0]) == "m.tableEngines = sync.Map{}" {
+			resetClears = true
+		}
+	}
 	// the interface must list exactly these methods plus the special ones
 	b := "From Coq Require Import List String Bool.\nImport ListNotations.\nOpen Scope string_scope.\n\n" +
 		"Record mmethod := { mm_name : string; mm_engine : string; mm_nparams : nat; mm_args : list nat;\n" +
 		"                    mm_notfound : bool; mm_deletes : bool; mm_other : bool }.\n\n" +
-		"Definition manager_table : list mmethod := [\n" + strings.Join(rows, ";\n") + "\n].\n"
+		"Definition manager_table : list mmethod := [\n" + strings.Join(rows, ";\n") + "\n].\n\n" +
+		"(* CreateTable: registry writes as (after the engine's create succeeded, key is the table's id) *)\n" +
+		"Definition create_stores : list (bool * bool) := [" + strings.Join(stores, "; ") + "].\n" +
+		fmt.Sprintf("Definition reset_clears : bool := %v.\n", resetClears)
 	write(out, "Gen_Manager.v", b)
 }
